@@ -93,6 +93,20 @@ Definition all_joining (s : st) (ms : list mid) : bool :=
 
 Definition latest_gen (s : st) : nat := match hist s with r :: _ => g_id r | [] => 0 end.
 
+(* may member m adopt generation g now?  Either its JoinGroup was answered with g (PJoined g), or it
+   re-sent a JoinGroup while it is a member of the still current generation g and the coordinator
+   answered with that same generation (a re-join that changes nothing does not start a rebalance) *)
+Definition assign_ok (s : st) (m : mid) (g : nat) : bool :=
+  match ph (get s m) with
+  | PJoined g' => Nat.eqb g g'
+  | PJoining => Nat.eqb g (latest_gen s) &&
+                match find_gen g (hist s) with
+                | Some r => existsb (Nat.eqb m) (g_members r)
+                | None => false
+                end
+  | _ => false
+  end.
+
 Definition step (s : st) (e : ev) : option st :=
   match e with
   | RevokeBegin m =>
@@ -138,9 +152,9 @@ Definition step (s : st) (e : ev) : option st :=
       end
   | AssignBegin m g a =>
       let x := get s m in
-      match ph x, find_gen g (hist s) with
-      | PJoined g', Some r =>
-          if Nat.eqb g g' then
+      match find_gen g (hist s) with
+      | Some r =>
+          if assign_ok s m g then
             match g_dist r with
             | Some d =>
                 let mine := match lookup m d with Some l => l | None => [] end in
@@ -151,7 +165,7 @@ Definition step (s : st) (e : ev) : option st :=
             | None => None
             end
           else None
-      | _, _ => None
+      | None => None
       end
   | AssignEnd m =>
       let x := get s m in
